@@ -416,6 +416,32 @@ impl BudgetEnforcer {
         }
     }
 
+    /// Observe an alias whose anchored node the caller is about to replay through [`observe`]
+    /// (the live event source does this). The event and the alias are counted here; the
+    /// key/value bookkeeping is left to the replayed node, which occupies the alias' position —
+    /// doing it for both would flip the parity of the enclosing mapping and miscount merge keys.
+    pub(crate) fn observe_alias_to_be_replayed(&mut self) -> Result<(), BudgetBreach> {
+        self.report.events += 1;
+        if self.report.events > self.budget.max_events {
+            return Err(BudgetBreach::Events {
+                events: self.report.events,
+            });
+        }
+        self.report.aliases += 1;
+        if self.report.aliases > self.budget.max_aliases {
+            return Err(BudgetBreach::Aliases {
+                aliases: self.report.aliases,
+            });
+        }
+        Ok(())
+    }
+
+    /// An alias that was answered by a placeholder instead of a replay still occupies a
+    /// key or value position.
+    pub(crate) fn alias_occupies_position(&mut self) {
+        self.handle_alias();
+    }
+
     fn bump_nodes(&mut self) -> Result<(), BudgetBreach> {
         self.report.nodes += 1;
         if self.report.nodes > self.budget.max_nodes {
